@@ -189,6 +189,24 @@ func (s *Safe) Read(p []byte) (int, error) {
 	return s.D.Read(p)
 }
 
+// Chunks returns the bytes of every Read so far, one entry per call (at most max entries).
+func (s *Safe) Chunks(max int) [][]byte {
+	s.mu.Lock()
+	defer s.mu.Unlock()
+	var out [][]byte
+	pos := 0
+	for _, r := range s.D.Log {
+		if len(out) >= max || pos+r.Gave > len(s.D.Delivered) {
+			break
+		}
+		if r.Gave > 0 {
+			out = append(out, append([]byte(nil), s.D.Delivered[pos:pos+r.Gave]...))
+		}
+		pos += r.Gave
+	}
+	return out
+}
+
 // DeliveredCopy returns what the device has handed out so far.
 func (s *Safe) DeliveredCopy() []byte {
 	s.mu.Lock()
